@@ -3,13 +3,14 @@
 //! embedding size k in `ks` (default 1..=p) and whitening off/on the real `Pca::params(k).whiten(w).fit(..)` is
 //! called (the k = p, un-whitened fit first) and three events are recorded per fit:
 //!   fit  : result, mean, singular values (+ order keys), components, explained variance (+ratio)
-//!   proj : predict / transform of the training records and predict of the probe rows
+//!   proj : predict / transform of the training records, predict of the probe rows, predict_inplace into a
+//!          garbage-filled buffer (training rows) and into a reused buffer (probe rows)
 //!   inv  : inverse_transform of those projections
 //! followed by `err` events for embedding sizes 0 and p+1 and for an empty record matrix.
 //! Nothing is judged here: floats are logged as fixed point integers (scales S / SW; the `fin` flags
 //! say that every entry of the event could be logged as an integer), the relation is
 //! evaluated by TLC (specs/Trace_Pca.tla).
-use linfa::traits::{Fit, Predict, Transformer};
+use linfa::traits::{Fit, Predict, PredictInplace, Transformer};
 use linfa::DatasetBase;
 use linfa_reduction::Pca;
 use ndarray::{Array1, Array2, ArrayView2, ShapeBuilder};
@@ -79,7 +80,11 @@ fn run(case: &Value) -> Vec<Value> {
     // observation is logged in units of `unit` (lengths / unit, variances / unit^2, whitened components
     // * unit), so that the specification sees the PCA of x itself. This reaches magnitudes whose
     // fixed-point images would not fit 32 bits; it is a change of the unit of length, nothing else.
-    let unit = inp.get("unit").and_then(|v| v.as_i64()).unwrap_or(1).max(1) as f64;
+    // `ushift` = e: unit = 2^-e (exact in binary floating point) reaches very small magnitudes the same way.
+    let mut unit = inp.get("unit").and_then(|v| v.as_i64()).unwrap_or(1).max(1) as f64;
+    if let Some(e) = inp.get("ushift").and_then(|v| v.as_i64()) {
+        unit *= (2.0f64).powi(-(e as i32));
+    }
     let x = to_array2(&xs, p) * unit;
     let q = to_array2(&qs, p) * unit;
     let mut ev: Vec<Value> = vec![];
@@ -151,9 +156,16 @@ fn run(case: &Value) -> Vec<Value> {
                 Form::View => model.predict(&q.view()),
                 _ => model.predict(&q),
             };
-            (z, zt, zq)
+            // the in-place calling form: into a buffer full of garbage, and into a buffer that is
+            // reused from a previous call (default_target once, then two calls)
+            let mut zi: Array2<f64> = Array2::from_shape_fn((zr, z.ncols()), |(r, c)| 1000.5 + 3.0 * r as f64 - c as f64);
+            model.predict_inplace(&xz, &mut zi);
+            let mut zqi: Array2<f64> = model.default_target(&q);
+            model.predict_inplace(&q, &mut zqi);
+            model.predict_inplace(&q, &mut zqi);
+            (z, zt, zq, zi, zqi)
         });
-        let (z, zt, zq) = match pr {
+        let (z, zt, zq, zi, zqi) = match pr {
             Ok(t) => t,
             Err(msg) => {
                 ev.push(panic_event("proj", &msg));
@@ -165,7 +177,8 @@ fn run(case: &Value) -> Vec<Value> {
         ev.push(json!({
             "ev": "proj", "k": k, "wh": wh,
             "z": mat(&z.view(), sz), "zt": mat(&zt.view(), sz), "zq": mat(&zq.view(), sz),
-            "fin": int2(&z.view(), sz) && int2(&zt.view(), sz) && int2(&zq.view(), sz),
+            "zi": mat(&zi.view(), sz), "zqi": mat(&zqi.view(), sz),
+            "fin": int2(&z.view(), sz) && int2(&zt.view(), sz) && int2(&zq.view(), sz) && int2(&zi.view(), sz) && int2(&zqi.view(), sz),
         }));
 
         // transform followed by inverse transform
